@@ -88,6 +88,61 @@ pub fn build(n: usize, mmax: usize) -> (Generator, RefState) {
     (g, rs)
 }
 
+/// "MARK-slice" shape: [x, MARK, i_1 .. i_k] with x any of the 18 variants and each i_j one of NONE / TUPLE /
+/// CALLABLE / MARK — reaches slice lengths (parity, emptiness) that the all-kinds instances only reach at depths
+/// that cost minutes.
+pub fn build_shaped(k: usize) -> (Generator, RefState) {
+    let p = any_proto();
+    let mut g = Generator::new(version_of(p));
+    g.allow_ext_opcodes = kani::any();
+    g.allow_buffer_opcodes = kani::any();
+    g.state.proto_emitted = kani::any();
+    let mut rs = RefState::empty();
+    let c: u8 = kani::any();
+    kani::assume(c < N_VARIANTS);
+    g.state.stack.push(mk(c));
+    rs.push(kind_of_code(c));
+    g.state.stack.push(mk(12));
+    rs.push(K_MARK);
+    vk_unroll!(i in [0, 1, 2, 3, 4, 5] {
+        if i < k {
+            let sel: u8 = kani::any();
+            kani::assume(sel < 4);
+            let c: u8 = if sel == 0 { 3 } else if sel == 1 { 8 } else if sel == 2 { 15 } else { 12 };
+            g.state.stack.push(mk(c));
+            rs.push(kind_of_code(c));
+        }
+    });
+    rs.m = 0;
+    unsafe {
+        MEMO.m = 0;
+    }
+    (g, rs)
+}
+
+macro_rules! guard_shape {
+    ($name:ident, $op:ident, $k:expr, $unw:expr) => {
+        #[kani::proof]
+        #[kani::unwind($unw)]
+        #[kani::stub(std::hash::RandomState::new, rs_conc)]
+        #[kani::stub(std::rc::Rc::drop_slow, rc_drop_slow_noop)]
+        #[kani::stub(std::collections::HashMap::len, hm_len_any)]
+        #[kani::stub(std::collections::HashMap::is_empty, hm_is_empty_any)]
+        fn $name() {
+            let (g, rs) = build_shaped($k);
+            let op = OpcodeKind::$op;
+            let i = ref_index(op);
+            let e = g.can_emit(op);
+            if e {
+                assert!(pre(i, &rs, 0), "enabled opcode violates the reference stack/memo discipline");
+                assert!(kinds_pre(i, &rs), "enabled opcode gets an operand of the wrong kind");
+            }
+            kani::cover!(true);
+            std::mem::forget(g);
+        }
+    };
+}
+
 macro_rules! guard_h {
     ($name:ident, $op:ident, $n:expr, $unw:expr) => {
         #[kani::proof]
